@@ -413,6 +413,7 @@ carquet_status_t carquet_batch_reader_next(
 
             /* Mark page as consumed */
             col_reader->page_values_read = col_reader->page_num_values;
+            col_reader->page_non_null_read = col_reader->page_num_values;
             col_reader->values_remaining -= col_reader->page_num_values;
         } else {
             /* ====== STANDARD PATH (with copy) ====== */
